@@ -348,7 +348,7 @@ Proof.
   intros IH a b c. unfold m_balchprod. destruct (_ && _).
   - cbv zeta. repeat bind_step. apply pnum_total_wf.
   - destruct (PboxBase.straddles_zero RN a).
-    + cbv zeta. repeat bind_step. apply IH.
+    + cbv zeta. repeat bind_step. apply gen_classic_wf.
     + destruct (PboxBase.straddles_zero RN b); [|apply IH]. cbv zeta. repeat bind_step. apply gen_classic_wf.
 Qed.
 Lemma gen_straddle_wf fuel : (forall p q r, m_frechet_pbox_mul RN steps plo phi fuel p q = Ok r -> WFs r) ->
